@@ -209,9 +209,12 @@ def _ctw_sigma(kn, ik, E):
 @harness(clause="cross-sections")
 def ctw_cc_plus_nc_is_total():
     """default model: sigma(CC) + sigma(NC) = total, for neutrinos and antineutrinos"""
-    E = real("E")
-    eps = real("eps")
-    assume(And(eps >= 3, eps <= 12, E > 0, eq(log(E) / log(10), eps)))
+    eps = real("eps", 3, 12)
+    if NATIVE:
+        E = 10 ** eps
+    else:
+        E = real("E")
+        assume(And(E > 0, eq(log(E) / log(10), eps)))
     prove("default-model-is-CTW", resolve("pyrex.particle.NeutrinoInteraction") is resolve(CTW))
     for kn in ("tau_neutrino", "tau_antineutrino"):
         cc = _ctw_sigma(kn, "charged_current", E)
@@ -223,7 +226,10 @@ def ctw_cc_plus_nc_is_total():
 
 
 def _ctw_increasing(kn, ik, c0, c2, c3, c4):
-    E = real("E")
+    if NATIVE:
+        E = 10 ** real("eps", 3, 12)
+    else:
+        E = real("E")
     assume(E > 0)
     L = log(log(E) / log(10) - c0)
     # the published validity range [1e3, 1e12] GeV, stated on eps = log10(E)
